@@ -204,8 +204,10 @@ fn arity_case() -> String {
     for (n, a, p) in &kinds {
         env.add_function(if *p { Function::new(t0, *a, n) } else { Function::impure(t0, *a, n) });
     }
+    // every small count, and the magnitudes at which a width, a table size or a made-up upper bound would show
+    let counts: Vec<usize> = (0..8usize).chain([9, 15, 16, 17, 31, 32, 33, 63, 64, 65, 98, 99, 100, 101, 127, 128, 129, 254, 255, 256, 257, 999, 1000, 1001, 65535, 65536, 65537, 1 << 31, 1 << 32, usize::MAX - 1, usize::MAX]).collect();
     for (n, a, p) in &kinds {
-        for cnt in 0..8usize {
+        for &cnt in &counts {
             checked += 1;
             let r = env.function_exists(n, cnt);
             let want = in_arity(a, cnt);
@@ -235,6 +237,31 @@ fn arity_case() -> String {
             None => inner,
         };
         let decl: Vec<String> = if inner.trim().is_empty() { vec![] } else { inner.split(',').map(|p| p.trim().to_string()).collect() };
+        for &cnt in counts.iter().filter(|c| **c > max + 1) {
+            checked += 1;
+            let want = in_arity(&f.arity, cnt);
+            let ok = match benv.function_exists(&f.name, cnt) {
+                FunctionResult::Exists { pure } => want && pure == f.pure,
+                FunctionResult::WrongArity { .. } => !want,
+                FunctionResult::NotFound => false,
+            };
+            if !ok {
+                bad_arity.push(format!("{}/{}", f.name, cnt));
+            }
+            // a call with that many (literal) arguments: the validator's verdict is the registered arity, and an accepted call does not fail with a count error
+            if cnt <= 1001 {
+                let e = Expression::Call { name: f.name.clone(), params: (0..cnt).map(|i| Expression::Literal { value: Value::Number(i as f64) }).collect() };
+                let accepted = check_variables_and_functions(&benv, &e).is_ok();
+                if accepted != want {
+                    bad_arity.push(format!("validator:{}/{}", f.name, cnt));
+                }
+                if accepted && f.pure {
+                    if let Ok(Err(slac::Error::NativeFunctionError(_, NativeError::WrongParameterCount(_)))) = std::panic::catch_unwind(std::panic::AssertUnwindSafe(|| execute(&benv, &e))) {
+                        bad_count.push(format!("{}/{}", f.name, cnt));
+                    }
+                }
+            }
+        }
         for cnt in 0..=max + 1 {
             checked += 1;
             let r = benv.function_exists(&f.name, cnt);
